@@ -10,6 +10,7 @@ import Frrs.Proofs.Decimal
 import Frrs.Proofs.Stanza
 import Frrs.Proofs.Monotone
 import Frrs.Commit
+import Frrs.Proofs.Bridge
 namespace Frrs.C02
 open Frrs
 set_option linter.unusedSimpArgs false
@@ -277,5 +278,50 @@ theorem from_line_round_trip (n : Nat) (hn : n ≤ u32Max) :
     simp [stripPrefix?, B.colon]
   simp only [parseFromMark, parseRefMark, hs]
   simp [B.colon, satDigits_natToDec n [B.lf] hn (by intro b t h; simp only [List.cons.injEq] at h; rw [← h.1]; decide)]
+
+
+/-! ### bridge to the command-level simulation (`Frrs.Sim`)
+
+The graph-level statement of C02 is proved over `Sim.fstep`. These theorems say that the pieces of `Sim.fstep` are what
+the line-level functions — the ones the correspondence runs tie to commit.rs — compute. -/
+
+/-- **The parents `finalize_parent_lines` keeps are the parents of the simulation**: for a commit whose parent lines all
+    carry marks, on a one-level alias table in which every canonical parent was emitted, they are the canonical images of
+    the original parents, in order, first occurrences only — `Sim.dedup (parents.map canon)`. -/
+theorem kept_parents_are_the_simulations (emitted : Nat → Bool) (alias : AliasMap) (hflat : Bridge.Flat alias)
+    (ps : List ParentLine) (hm : Bridge.AllMarked ps)
+    (hem : ∀ k ∈ Bridge.marksOf ps, emitted (resolveCanonical alias k) = true) :
+    Bridge.keptMarks (classifyParents emitted alias ps [])
+      = Sim.dedup ((Bridge.marksOf ps).map (Sim.canon (Bridge.simState alias))) :=
+  Bridge.parents_refine emitted alias hflat ps hm hem
+
+/-- without the side conditions: always the de-duplicated canonical marks that were emitted -/
+theorem kept_parents_in_general (emitted : Nat → Bool) (alias : AliasMap) (ps : List ParentLine) (seen : List Nat)
+    (hm : Bridge.AllMarked ps) :
+    Bridge.keptMarks (classifyParents emitted alias ps seen)
+      = Sim.dedupAux seen (((Bridge.marksOf ps).map (resolveCanonical alias)).filter emitted) :=
+  Bridge.classify_is_dedup emitted alias ps seen hm
+
+/-- `first_parent_mark` and the kept count are the head and the length of that list -/
+theorem first_parent_and_count (emitted : Nat → Bool) (alias : AliasMap) (ps : List ParentLine) (hm : Bridge.AllMarked ps) :
+    firstKeptMark (classifyParents emitted alias ps []) = (Bridge.keptMarks (classifyParents emitted alias ps [])).head? ∧
+    keptCount (classifyParents emitted alias ps []) = (Bridge.keptMarks (classifyParents emitted alias ps [])).length :=
+  Bridge.first_and_count emitted alias ps [] hm
+
+/-- on a one-level alias table `resolve_canonical_mark` is the single look-up of the simulation -/
+theorem canonical_mark_is_one_lookup (m : AliasMap) (hflat : Bridge.Flat m) (k : Nat) :
+    resolveCanonical m k = Sim.canon (Bridge.simState m) k := Bridge.resolve_is_canon m hflat k
+
+/-- the insertion made for a pruned commit (fresh mark ↦ canonical mark) keeps the table one level deep -/
+theorem alias_table_stays_one_level (m : AliasMap) (hflat : Bridge.Flat m) (old c : Nat) (hc : m.get c = none)
+    (hne : old ≠ c) (hfresh : ∀ k v, m.get k = some v → v ≠ old) : Bridge.Flat ((old, c) :: m) :=
+  Bridge.flat_insert m hflat old c hc hne hfresh
+
+/-- with the default options `should_keep_commit` prunes exactly when `Sim.fstep` writes an alias:
+    no surviving change and a single surviving parent -/
+theorem default_prune_is_the_simulations {α : Type} (fch : List α) (q : Nat) (rest : List Nat) (mk : Nat)
+    (wasMerge isDeg : Bool) :
+    shouldKeepCommit (!fch.isEmpty) (some q) (some mk) (q :: rest).length wasMerge isDeg {}
+      = !(fch.isEmpty && rest.isEmpty) := Bridge.default_prune_matches_fstep fch q rest mk wasMerge isDeg
 
 end Frrs.C02
